@@ -6,8 +6,8 @@ import json, subprocess
 LEVEL_TEXT = {
  "C01": "bounded symbolic execution of the real ParseSourceCode: every text of L symbolic bytes and every sequence of K symbolic tokens; within those bounds the solver-decided path split is exhaustive, so 'tree xor error, no panic, terminates, complete tree' holds for every input of that size; nothing is claimed for longer inputs or for running time",
  "C02": "differential bounded symbolic execution: the real parser vs a reference parser written from the statement, on all token sequences of the stated lengths, all operator triples and list contexts; the solver decides every branch, so agreement holds for every sequence inside the bounds",
- "C03": "bounded symbolic execution of the real evaluator over every builtin name x argument kind x argument count and every operator x operand kind pair; a panic on any path is a violation (replayed natively); heavy numeric algorithms run on concrete pools only",
- "C04": "bounded symbolic execution of the runner and the decimal library's add/mul/quorem code with symbolic coefficients and signs, exponents case-split, against exact integer arithmetic; '/', >34-digit rounding and float64 hand-back are outside (not encodable)",
+ "C03": "bounded symbolic execution of the real evaluator over every builtin name x argument kind x argument count and every operator x operand kind pair, plus a concrete pool of formulas at the extremes (huge exponents, huge pad lengths, self-containing values); a panic, a process death or a step-budget overrun on any path is a violation (replayed natively); heavy numeric algorithms run on concrete pools only; one listed known finding (non-termination of rounding/remainder below 10^-10^8)",
+ "C04": "bounded symbolic execution of the runner and the decimal library's add/mul/quorem code with symbolic coefficients and signs (products up to 2^64), exponents case-split, against exact integer arithmetic; '/', >34-digit rounding, float64 entry and hand-back are decided on concrete pools with independently computed expectations (not encodable symbolically)",
  "C05": "bounded symbolic execution of the eight comparison operators (real decimal.Cmp) with symbolic coefficients/signs/bytes against exact order; every (coefficient, exponent) spelling inside the bounds is covered",
  "C06": "symbolic execution of !!, !, ?:, &&, ||, ?? over all condition kinds with symbolic scalars; selected operand identity and single-branch evaluation asserted",
  "C07": "bounded symbolic execution of generated programs against a store-passing reference evaluator, plus an engine-level write monitor that proves no store/map-update instruction targets caller data on any path",
@@ -20,8 +20,8 @@ LEVEL_TEXT = {
  "C14": "inductive step by symbolic execution: one Scan() from every position of every text of L symbolic bytes (tiling follows by induction), plus the character classes for one symbolic rune over all 0x110000 code points",
  "C15": "bounded symbolic execution of the line-start table/offset helpers against a direct count for every text of L symbolic bytes and every offset, of BinarySearch on symbolic sorted arrays, and of node ranges / re-parse / error text on every text of L bytes",
  "C16": "bounded symbolic execution of name lookup and member access over a shape pool with symbolic '.'/'!.' flags and key choices against a reflection-free reference lookup",
- "C17": "bounded symbolic execution of the string builtins (fetched by name) on strings of symbolic bytes and symbolic 64-bit positions against definitional loops and the algebraic laws",
- "C18": "bounded symbolic execution of abs/ceil/floor/round/roundBank/max/min/toInt/toFloat/toString/finite and & | ^ ~ with symbolic coefficients/integers (library RoundToInt executed symbolically); sqrt/exp/ln/log not claimed",
+ "C17": "bounded symbolic execution of the string builtins (fetched by name) on strings of symbolic bytes and symbolic 64-bit positions against definitional loops and the algebraic laws; regexp and non-ASCII case mapping on concrete pools",
+ "C18": "bounded symbolic execution of abs/ceil/floor/round/roundBank/max/min/toInt/toFloat/toString/finite and & | ^ ~ with symbolic coefficients/integers (library RoundToInt executed symbolically); sqrt/exp/ln/log on concrete pools against independently computed 34-digit values",
  "C19": "the solver decides the wiring of the 14 date builtins to package time for all arguments, with time's calendar functions as uninterpreted functions and the clock as a symbolic non-decreasing sequence; the calendar itself is trusted to Go's time package (cross-checked natively against an independent days-from-civil computation on replayed models)",
  "C20": "bounded exhaustive symbolic exploration of operation histories of length N from both initial states against the two-map model",
 }
@@ -59,7 +59,7 @@ def main():
                      "kind_free_text": "path-forking symbolic executor for Go SSA (fork of x/tools v0.29.0 go/ssa/interp with symbolic scalars and strings), z3 over a pipe with push/pop, interval pre-solver domain, native replay of every counterexample and of sampled path models"}],
         "checks": checks,
         "not_applicable": [],
-        "notes": "Every check rebuilds the SSA encoding from /repo's working tree. Fix commits made to /repo are listed in known_findings.json (status fixed). ./check <ID> thorough runs deeper bounds (see engine/cmd/vp/checks.go).",
+        "notes": "Every check rebuilds the SSA encoding from /repo's working tree. Fix commits made to /repo are listed in known_findings.json (status fixed); one unrepaired finding (C03, status known) is reported by its check as a KNOWN-FINDING line with exit 0. ./check <ID> thorough runs deeper bounds (see engine/cmd/vp/checks.go).",
     }
     json.dump(m, open("/verif/MANIFEST.json", "w"), indent=1)
 
